@@ -568,5 +568,55 @@ theorem dlen_some_mod (n d : Nat) (hd : dlen n = some d) : n % 4 ≠ 1 := by
       · omega
       · simp at hd
 
+/-! ## JSON-string form of encoded text -/
+
+theorem decode_encChars (b : List Nat) (hb : Bytes b) : decode (encChars b) = some b := by
+  rw [decode_eq_decRef, encChars_eq, decRef, idxAll_map_mapChar _ (encS_sextets _ hb)]
+  exact decS_encS _ hb
+
+theorem mapChar_lt_128 : ∀ v, v < 64 → mapChar v < 128 := by decide
+
+theorem encChars_ascii (b : List Nat) (hb : Bytes b) : ∀ c ∈ encChars b, c < 128 := by
+  intro c hc
+  rw [encChars_eq] at hc
+  simp only [List.mem_map] at hc
+  obtain ⟨v, hv, rfl⟩ := hc
+  exact mapChar_lt_128 v (encS_sextets b hb v hv)
+
+theorem utf8Size_ascii (c : Nat) (h : c < 128) : (Char.ofNat c).utf8Size = 1 := by
+  have hvalid : c.isValidChar := by simp [Nat.isValidChar]; omega
+  have hv : (Char.ofNat c).val.toNat = c := by
+    simp [Char.ofNat, hvalid, Char.ofNatAux]
+  simp only [Char.utf8Size]
+  have : (Char.ofNat c).val ≤ 127 := by
+    rw [UInt32.le_iff_toNat_le, hv]; simp; omega
+  simp [this]
+
+theorem val_ascii (c : Nat) (h : c < 128) : (Char.ofNat c).val.toUInt8.toNat = c := by
+  have hvalid : c.isValidChar := by simp [Nat.isValidChar]; omega
+  have hv : (Char.ofNat c).val.toNat = c := by
+    simp [Char.ofNat, hvalid, Char.ofNatAux]
+  rw [UInt32.toNat_toUInt8, hv]
+  omega
+
+/-- ASCII text survives the trip through a JSON string (UTF-8) unchanged -/
+theorem ascii_roundtrip (cs : List Nat) (h : ∀ c ∈ cs, c < 128) :
+    bytesOfString (String.ofList (cs.map Char.ofNat)) = cs := by
+  simp only [bytesOfString, String.toUTF8, String.toByteArray_ofList, List.utf8Encode, List.toList_data_toByteArray]
+  induction cs with
+  | nil => rfl
+  | cons c r ih =>
+    have hc := h c (by simp)
+    simp only [List.map_cons, List.flatMap_cons, String.utf8EncodeChar_eq_singleton (utf8Size_ascii c hc),
+      List.singleton_append, val_ascii c hc]
+    rw [ih (fun x hx => h x (by simp [hx]))]
+
+/-- the JSON-string form round-trips: decoding `jose_b64_enc(b)` gives `b` back -/
+theorem dec_enc_json (b : List Nat) (hb : Bytes b) :
+    (match enc b with | .str s => decode (bytesOfString s) | _ => none) = some b := by
+  simp only [enc]
+  rw [ascii_roundtrip _ (encChars_ascii b hb)]
+  exact decode_encChars b hb
+
 end B64
 end Jose
